@@ -536,7 +536,9 @@ func checkRenderings(run *vk.Run) {
 		do("payload", e.SerializedUefiGolden, func(ctx context.Context) error { return gtb.InspectPayload(ctx, e) })
 		do("signature", e.Signature, func(ctx context.Context) error { return gtb.InspectSignature(ctx, e) })
 		for p, want := range map[string][]byte{"cert": g.Cert, "digest": g.Digest, "sev_snp.measurements[1]": g.SevSnp.Measurements[1], "sev_snp.measurements[0x10]": g.SevSnp.Measurements[16],
-			"tdx.measurements[1].mrtd": g.Tdx.Measurements[1].Mrtd, "sev_snp.svsm_measurement": g.SevSnp.SvsmMeasurement, "commit": g.Commit} {
+			"tdx.measurements[1].mrtd": g.Tdx.Measurements[1].Mrtd, "sev_snp.svsm_measurement": g.SevSnp.SvsmMeasurement, "commit": g.Commit,
+			// (values of exactly 16 bytes: the length of a GUID, which only the guidify form may render as one)
+			"sev_snp.family_id": g.SevSnp.FamilyId, "sev_snp.image_id": g.SevSnp.ImageId} {
 			p := p
 			do("mask "+p, want, func(ctx context.Context) error { return gtb.InspectMask(ctx, e, &fmpb.FieldMask{Paths: []string{p}}) })
 		}
